@@ -28,7 +28,7 @@ DOCSTRING = [
 # errors: faults of every kind
 ERRORS = [
     "Feature: f\n", "  Scenario: s\n", "    Given x\n", "      | a |\n", "      | a | b |\n", "  @bad tag\n", "# language: xx\n", "junk\n",
-    "    Examples:\n", '      """\n', "  Rule: r\n", "  @t\n", "Feature: g\n", "  Background:\n",
+    "    Examples:\n", '      """\n', "  Rule: r\n", "  @t\n", "Feature: g\n", "  Background:\n", "  junk  \t\n", "    Examples: e \n",
 ]
 
 # tables: rectangular and ragged data / examples tables, escapes
